@@ -170,6 +170,12 @@ fn c07_bool_should_is_optional_next_to_must() {
   kani::cover!(true, "all clause combinations executed");
 }
 
+// Whole Bool / DisMax trees were tried three ways (children built with vec![], with
+// push, and as Vecs backed by stack arrays): each time CBMC cannot keep the children's
+// (niche-encoded) enum payloads constant, explores every child as every variant -
+// including arbitrary filter trees - and times out at 900 s even for one child.  The
+// Bool arm is therefore covered by the source slice above only.
+
 //@ props: C07
 //@ tier: quick
 //@ funcs: api::reader::QueryEvaluator::matches_node (QueryString matcher)
